@@ -19,7 +19,9 @@ EventStep(e) ==
   \/ /\ e.e = "start" /\ started' = Append(started, e.id) /\ UNCHANGED <<acked, saveStarted, saveAcked, lastLog>>
   \/ /\ e.e = "ack" /\ e.id \in Range(started) /\ acked' = acked \cup {e.id} /\ UNCHANGED <<started, saveStarted, saveAcked, lastLog>>
   \/ /\ e.e = "savestart" /\ saveStarted' = saveStarted \cup {e.pos} /\ UNCHANGED <<started, acked, saveAcked, lastLog>>
-  \/ /\ e.e = "saveack" /\ saveAcked' = e.pos /\ UNCHANGED <<started, acked, saveStarted, lastLog>>
+  \/ /\ e.e = "saveack" /\ saveAcked' = e.pos /\ saveStarted' = saveStarted \ {e.pos} /\ UNCHANGED <<started, acked, lastLog>>
+  \* a SaveOffset called with a cancelled context returned an error: it must not have taken effect
+  \/ /\ e.e = "saverefused" /\ saveStarted' = saveStarted \ {e.pos} /\ UNCHANGED <<started, acked, saveAcked, lastLog>>
   \/ /\ e.e \in {"kill", "close"} /\ UNCHANGED <<started, acked, saveStarted, saveAcked, lastLog>>
   \/ /\ e.e = "open"
      /\ acked \subseteq Range(e.log)                        \* every acknowledged event survived
@@ -29,9 +31,9 @@ EventStep(e) ==
      /\ e.writers = 1 => InOrder(SubSeq(e.log, Len(lastLog) + 1, Len(e.log)), started)   \* what this run added is in call order
      /\ IsPrefix(lastLog, e.log)                            \* the same sequence as before, only longer
      /\ e.offsincreasing /\ e.payloadok
-     /\ e.saved = saveAcked \/ e.saved \in saveStarted      \* the acknowledged saved offset (or one in flight)
-     /\ e.saved >= saveAcked \/ e.saved \in saveStarted
-     /\ lastLog' = e.log /\ UNCHANGED <<started, acked, saveStarted, saveAcked>>
+     /\ e.saved = saveAcked \/ e.saved \in saveStarted      \* the acknowledged saved offset (or the one in flight when it was killed)
+     /\ lastLog' = e.log /\ saveAcked' = e.saved /\ saveStarted' = {}
+     /\ UNCHANGED <<started, acked>>
   \/ /\ e.e = "reopen" /\ e.log = lastLog /\ e.saved = e.savedbefore    \* opening an existing database changes nothing
      /\ UNCHANGED <<started, acked, saveStarted, saveAcked, lastLog>>
   \/ /\ e.e = "appendafter" /\ e.greater                   \* new appends receive larger offsets
